@@ -30,7 +30,7 @@ def exc_isa(name, base):
 
 BUILTIN_NAMES = {'len', 'min', 'max', 'sum', 'sorted', 'abs', 'int', 'str', 'set', 'list', 'dict', 'tuple',
                  'range', 'divmod', 'next', 'isinstance', 'hasattr', 'getattr', 'bool', 'super', 'print',
-                 'zip', 'enumerate', 'frozenset', 'open', 'repr', 'iter', 'any', 'all', 'setattr'}
+                 'zip', 'enumerate', 'frozenset', 'open', 'repr', 'iter', 'any', 'all', 'setattr', 'round', 'float', 'format'}
 
 
 _cheap_cache = {}
@@ -499,7 +499,8 @@ class Exec:
             if on == 'Pow':
                 return self.C.int_pow(a, b, st)
             if on == 'Div':
-                raise Unsupported('true division of ints')
+                return self.split(b.t == 0, st, lambda s: self.exc('ZeroDivisionError', s),
+                                  lambda s: self.ok(SFloat(a.t, b.t), s))
         if isinstance(a, SStr) or (isinstance(a, SStr) and on == 'Mod'):
             if on == 'Add' and isinstance(b, SStr):
                 return self.ok(self.C.str_concat(a, b), st)
